@@ -16,6 +16,8 @@ STD = {"name": "std", "gen": "std"}
 
 SIDE_NOTE = "stateful stream: each case starts with a reset op; non-trivial = the implementation produced a non-error result; distinct by op line within its case"
 
+PIPE_RULE = "abstract cases (service configuration, Via/Route/Record-Route stacks, dialogs, TCP connections) rendered to bytes and pushed through the real pipeline inside the real loop goroutine; predictions derived from the abstract case are checked on the implementation; non-trivial = message decoded and processed; distinct by op line"
+
 PROPS = {
     "C05": {"lean": ["C05"], "streams": [{"name": "rr", "gen": "rr"}],
             "rule": "exhaustive add/remove/dispatch sequences (canonical address order) plus seeded random histories on the real RoundRobinBackend; " + SIDE_NOTE},
@@ -27,6 +29,24 @@ PROPS = {
             "rule": "seeded pin/lookup/terminate/wait histories on the real DialogBasedBackend under a virtual clock; " + SIDE_NOTE},
     "C20": {"lean": ["C20"], "streams": [{"name": "send", "gen": "send"}],
             "rule": "exhaustive fault patterns: cached connection script x reconnectable path x listener up/down per message, sequences of 1-3 messages, for TCPClientTransport, FailOverClientTransport and TCPBackend; " + SIDE_NOTE},
+    "C01": {"lean": ["C01"], "expected": ["Tables"], "streams": [{"name": "pipe", "gen": "pipe"}],
+            "rule": PIPE_RULE},
+    "C02": {"lean": ["C02"], "expected": ["Tables"], "streams": [{"name": "pipe", "gen": "pipe", "args": {"focus": "responses"}}, {"name": "pipe2", "gen": "pipe", "args": {"focus": "dialogs"}}],
+            "rule": PIPE_RULE},
+    "C03": {"lean": ["C03"], "streams": [{"name": "pipe", "gen": "pipe", "args": {"focus": "requests"}}],
+            "rule": PIPE_RULE},
+    "C04": {"lean": ["C04"], "streams": [{"name": "pipe", "gen": "pipe", "args": {"focus": "dialogs"}}],
+            "rule": PIPE_RULE},
+    "C06": {"lean": ["C06"], "streams": [{"name": "pipe", "gen": "pipe", "args": {"focus": "requests"}}],
+            "rule": PIPE_RULE},
+    "C07": {"lean": ["C07"], "expected": ["Wiring"], "streams": [{"name": "pipe", "gen": "pipe", "args": {"focus": "requests"}}, {"name": "wire", "gen": "wire", "args": {"focus": "c07"}}], "also": ["C12"],
+            "rule": PIPE_RULE},
+    "C12": {"lean": ["C12"], "streams": [{"name": "pipe", "gen": "pipe", "args": {"focus": "tcp"}}],
+            "rule": PIPE_RULE},
+    "C13": {"lean": ["C13"], "streams": [{"name": "pipe", "gen": "pipe", "args": {"focus": "requests"}}],
+            "rule": PIPE_RULE},
+    "C17": {"lean": ["C17"], "expected": ["Tables", "Wiring"], "streams": [{"name": "pipe", "gen": "pipe", "args": {"focus": "twins"}}],
+            "rule": PIPE_RULE},
     "C14": {
         "lean": ["C14"], "expected": ["Tables"],
         "streams": [STD, {"name": "codec", "gen": "codec"}],
@@ -63,6 +83,6 @@ def replay_context(f, rundir):
     if first and first[0] in ("std", "codec", "msg"):
         return lines[i]
     j = i
-    while j > 0 and not (len(lines[j].split()) > 1 and lines[j].split()[1] in ("cfg", "new")):
+    while j > 0 and not (len(lines[j].split()) > 1 and lines[j].split()[1] in ("cfg", "new", "start")):
         j -= 1
     return "\n".join(lines[j:i + 1])
